@@ -165,6 +165,36 @@ def _with_raising_pass(k, fn):
         iro._OPTIMIZER_PASSES = orig
 
 
+def _checker_problem(model):
+    import onnx
+
+    try:
+        onnx.checker.check_model(model, full_check=True)
+    except Exception as e:
+        return "checker: " + str(e).replace("\n", " ")[:220]
+    try:
+        onnx.shape_inference.infer_shapes(model, strict_mode=True)
+    except Exception as e:
+        return "strict shape inference: " + str(e).replace("\n", " ")[:220]
+    return None
+
+
+def _malformed_after_abort(prog, k):
+    try:
+        aborted, _ = _with_raising_pass(k, lambda: pipeline.export(prog))
+    except Exception:
+        return None
+    why = _checker_problem(aborted)
+    if not why:
+        return None
+    try:
+        if _checker_problem(pipeline.export(prog)):
+            return None  # the complete export is rejected as well: not an abort matter (C03)
+    except Exception:
+        return None
+    return why
+
+
 def run_job(job, tier):
     kind, rest = job.split("|", 1)
     if kind == "loud":
@@ -187,6 +217,16 @@ def run_job(job, tier):
             r["status"] = "violation"
             r["kind"] = "abort_raises"
             r["witness"] = {"why": f"to_onnx raised with the default failure policy when pass {name} aborted: {r.get('reason')}"}
+            return r
+        if r["status"] != "violation":
+            # "never a partial model": what comes back after the abort must still be a well-formed model
+            # (a pass that stopped half way may leave annotations contradicting the nodes); judged only
+            # when the un-aborted export of the same program is well-formed
+            why = _malformed_after_abort(prog, k)
+            if why:
+                r["status"] = "violation"
+                r["kind"] = "abort_malformed"
+                r["witness"] = {"why": f"model returned after pass {name} aborted is rejected: {why}"}
         return r
     # strict: the exception must propagate
     os.environ["JAX2ONNX_STRICT_OPTIMIZER_FAILURES"] = "1"
